@@ -197,6 +197,59 @@ func genC04(rng *Rng, workdir string) *engSession {
 	return s
 }
 
+// genC04Big: more changed travellers than one worker's write batch holds (10000), so that batch
+// flushing inside a worker is exercised; compared between thread settings in Go only (too large to
+// replay in the model).
+func genC04Big(rng *Rng, workdir string) []MonitorFailure {
+	s := newEngSession(workdir, "none")
+	p := pickEngParams(rng, engCfg{promises: 0})
+	p.Threads = 1
+	p.MinGrounded = 1
+	s.eng.Administrator.SetParams(p)
+	n := 10000 + rng.Range(50, 700)
+	day := uint64(rng.Range(17500, 19500))
+	for i := 0; i < n; i++ {
+		pp := flap.NewPassport(fmt.Sprintf("%09d", i), "GBR")
+		f := flap.VerifToFlight(flap.VerifFlight{Start: flap.EpochTime(day*86400 + uint64(10+i%80000)), End: flap.EpochTime(day*86400 + 86000), From: icaoOf(1), To: icaoOf(2), Distance: flap.Kilometres(100 + float64(i%977))})
+		s.eng.SubmitFlights(pp, []flap.Flight{f}, flap.EpochTime(day*86400+5), i%3 != 0)
+	}
+	now := (day + 1) * 86400
+	s.eng.Release()
+	s.ldb.Release()
+	orig := s.dir
+	var fails []MonitorFailure
+	var ref *c04Obs
+	for _, th := range []byte{1, 16, 0, 4} {
+		cp := fmt.Sprintf("%s_big%d", orig, th)
+		os.RemoveAll(cp)
+		if err := copyTree(orig, cp); err != nil {
+			panic(err)
+		}
+		ldb := db.NewLevelDB(cp)
+		eng := flap.NewEngine(ldb, 0, cp)
+		p2 := p
+		p2.Threads = th
+		eng.Administrator.SetParams(p2)
+		st, err := eng.UpdateTripsAndBackfill(flap.EpochTime(now))
+		tmp := &engSession{eng: eng}
+		ob := &c04Obs{th: th, table: tmp.tableDigest(), carried: carriedHash(eng.Administrator), grounded: st.Grounded, travellers: st.Travellers, flights: st.Flights, share: float64(st.Share), code: engErrCode(err)}
+		ldb.Release()
+		os.RemoveAll(cp)
+		if ref == nil {
+			ref = ob
+			continue
+		}
+		if ob.table != ref.table || ob.carried != ref.carried || ob.grounded != ref.grounded || ob.travellers != ref.travellers || ob.flights != ref.flights || ob.code != ref.code {
+			fails = append(fails, MonitorFailure{Property: "C04", Signature: "large-population-outcome-differs-between-thread-settings",
+				What:   fmt.Sprintf("%d travellers (more than one 10000-record write batch): Threads=%d gives table digest %d grounded %d travellers %d flights %d, Threads=%d gives %d %d %d %d", n, ref.th, ref.table, ref.grounded, ref.travellers, ref.flights, ob.th, ob.table, ob.grounded, ob.travellers, ob.flights),
+				Replay: map[string]interface{}{"travellers": n, "threads": []byte{ref.th, ob.th}, "params": p}})
+		}
+	}
+	s.ldb = nil
+	os.RemoveAll(orig)
+	return fails
+}
+
 func runC04(o *Out, rng *Rng, tier string, replay string) {
 	n := 40
 	if tier == "thorough" {
@@ -212,6 +265,16 @@ func runC04(o *Out, rng *Rng, tier string, replay string) {
 		engNote(o, s)
 		o.AddCase(List(s.coq), s.stat["c04_nontrivial"] > 0, s.ops)
 		s.close()
+	}
+	nbig := 1
+	if tier == "thorough" {
+		nbig = 3
+	}
+	for k := 0; k < nbig; k++ {
+		for _, f := range genC04Big(rng.Fork(), wd) {
+			o.Fail(f)
+		}
+		o.Count("large_population_scenarios")
 	}
 	engFlush(o, "C04")
 }
